@@ -97,12 +97,10 @@ def clone (hp : Heap) (h : RHandle) : Except HFault (Heap × RHandle) :=
 MOVED (`$was.into_inner()`), so nothing is counted; each arm casts the pointer / the `Rc` and wraps it in the same
 variant; every other variant — and a listed variant whose arm is not usable — reaches `_ => unimplemented!()` -/
 def toDyn (callerFeats : List String) (hp : Heap) (h : RHandle) : Except HFault (Heap × RHandle) :=
-  if toDynHasArm callerFeats h.variant then
-    match h.variant with
-    | .ptr => .ok (hp, ⟨.ptr, h.addr, true⟩)                     -- `Reference::from_ptr(ptr as *mut dyn _)`
-    | .rcRefCell => .ok (hp, ⟨.rcRefCell, h.addr, true⟩)         -- `from_rc_ref_cell(rc_ref_cell as Rc<RefCell<dyn _>>)`
-    | .ptrRwLock => .ok (hp, ⟨.ptrRwLock, h.addr, true⟩)         -- `from_ptr_rw_lock(ptr_rw_lock as *const RwLock<dyn _>)`
-    | _ => .error (.panic .unimpl)
+  -- every arm the macro has (today: `Reference::from_ptr(ptr as *mut dyn _)`, `from_rc_ref_cell(rc as Rc<RefCell<dyn _>>)`,
+  -- `from_ptr_rw_lock(p as *const RwLock<dyn _>)`) casts the pointer and wraps it in the SAME variant; WHICH variants have an arm is read
+  -- from the regenerated table (`toDynHasArm`), so a macro that lists more variants is followed without touching this definition
+  if toDynHasArm callerFeats h.variant then .ok (hp, ⟨h.variant, h.addr, true⟩)
   else .error (.panic .unimpl)
 
 /-- `*reference.borrow()` -/
